@@ -5,8 +5,8 @@ from kappadata.datasets.kd_subset import KDSubset
 
 class PercentFilterWrapper(KDSubset):
     def __init__(self, dataset, from_percent=None, to_percent=None, ceil_from_index=False, ceil_to_index=False):
-        self.from_percent = from_percent or 0.
-        self.to_percent = to_percent or 1.
+        self.from_percent = from_percent if from_percent is not None else 0.
+        self.to_percent = to_percent if to_percent is not None else 1.
         assert self.from_percent is None or 0. <= self.from_percent <= 1.
         assert self.to_percent is None or 0. <= self.to_percent <= 1.
         self.ceil_from_index = ceil_from_index
